@@ -29,7 +29,7 @@ LEAN = os.path.join(VERIF, "lean")
 REPO = os.environ.get("BEZIER_REPO", "/repo")
 PY = "/venv/bin/python" if os.path.exists("/venv/bin/python") else sys.executable
 FILES = ["helpers.f90", "curve_intersection.f90", "curve.f90", "triangle.f90"]
-TABLES = ["SrcF90.lean", "SrcF90Kernels.lean"]
+TABLES = ["SrcF90.lean", "SrcF90Kernels.lean", "SrcF90Pipeline.lean"]
 
 
 def routine_span(text, name):
@@ -265,6 +265,44 @@ CASES = [
      [edit("triangle.f90", "evaluate_barycentric_multi", "row_result", "rr", 3),
       edit("triangle.f90", "de_casteljau_one_round", "integer(c_int) :: k, j\n", "integer(c_int) :: k, jj\n"),
       edit("triangle.f90", "de_casteljau_one_round", "do j = 0, degree - k - 1", "do jj = 0, degree - k - 1")]),
+    # ------------------------------------------------------------------ pipeline routines (Tables/SrcF90Pipeline.lean)
+    ("nsr_sign", "mutation", "newton_simple_root: `jacobian(:, 2) = -jacobian(:, 2)` removed (wrong sign of the second column)",
+     [edit("curve_intersection.f90", "newton_simple_root", "    jacobian(:, 2) = -jacobian(:, 2)\n", "")]),
+    ("nsr_operands", "mutation", "newton_simple_root: `func_val = func_val - workspace` -> `workspace - func_val`",
+     [edit("curve_intersection.f90", "newton_simple_root", "func_val = func_val - workspace", "func_val = workspace - func_val")]),
+    ("nsr_column", "mutation", "newton_simple_root: B2' written to column 1 instead of column 2 (`jacobian(:, 2:2)` -> `jacobian(:, 1:1)`)",
+     [edit("curve_intersection.f90", "newton_simple_root", "first_deriv2, 1, [t], jacobian(:, 2:2))", "first_deriv2, 1, [t], jacobian(:, 1:1))")]),
+    ("nsr_all_any", "mutation", "newton_simple_root: `all(func_val == 0.0_dp)` -> `any(...)`",
+     [edit("curve_intersection.f90", "newton_simple_root", "if (all(func_val == 0.0_dp)) then", "if (any(func_val == 0.0_dp)) then")]),
+    ("ndr_cross", "mutation", "newton_double_root: `cross_product(workspace(:, 1), b2_dt(:, 1), jacobian(3, 1))` with the operands swapped",
+     [edit("curve_intersection.f90", "newton_double_root", "call cross_product(workspace(:, 1), b2_dt(:, 1), jacobian(3, 1))",
+           "call cross_product(b2_dt(:, 1), workspace(:, 1), jacobian(3, 1))")]),
+    ("ndr_guard", "mutation", "newton_double_root: `if (num_nodes1 > 2)` -> `if (num_nodes1 > 3)`",
+     [edit("curve_intersection.f90", "newton_double_root", "if (num_nodes1 > 2) then", "if (num_nodes1 > 3) then")]),
+    ("ndr_transpose", "mutation", "newton_double_root: `modified_rhs = matmul(transpose(jacobian), func_val)` uses `func_val` of the wrong curve "
+     "(`func_val(:2, :) - workspace` -> `+ workspace`)",
+     [edit("curve_intersection.f90", "newton_double_root", "func_val(:2, :) = func_val(:2, :) - workspace", "func_val(:2, :) = func_val(:2, :) + workspace")]),
+    ("ndr_element", "mutation", "newton_double_root: `jacobian(3, 2) = 0.0_dp` -> `jacobian(3, 1) = 0.0_dp`",
+     [edit("curve_intersection.f90", "newton_double_root", "       jacobian(3, 2) = 0.0_dp", "       jacobian(3, 1) = 0.0_dp")]),
+    ("edge_index2", "mutation", "compute_edge_nodes: `index2 = index2 - index1 + degree + 1` -> `... + degree`",
+     [edit("triangle.f90", "compute_edge_nodes", "index2 = index2 - index1 + degree + 1", "index2 = index2 - index1 + degree")]),
+    ("edge_index3", "mutation", "compute_edge_nodes: `index3 = index3 - index1 - 1` -> `index3 - index1`",
+     [edit("triangle.f90", "compute_edge_nodes", "index3 = index3 - index1 - 1", "index3 = index3 - index1")]),
+    ("edge_start", "mutation", "compute_edge_nodes: `index2 = degree + 1` -> `degree`",
+     [edit("triangle.f90", "compute_edge_nodes", "    index2 = degree + 1\n", "    index2 = degree\n")]),
+    ("jac_difference", "mutation", "jacobian_both: `nodes(:, j) - nodes(:, i)` -> `nodes(:, j) - nodes(:, i + 1)` (wrong index in a difference)",
+     [edit("triangle.f90", "jacobian_both", "nodes(:, j) - nodes(:, i)", "nodes(:, j) - nodes(:, i + 1)")]),
+    ("jac_row_step", "mutation", "jacobian_both: the `i = i + 1` between the rows removed",
+     [edit("triangle.f90", "jacobian_both", "       ! In between each row, the index_ gains an extra value.\n       i = i + 1\n",
+           "       ! In between each row, the index_ gains an extra value.\n")]),
+    ("jac_block", "mutation", "jacobian_both: both differences written to the first block (`new_nodes(dimension_ + 1:, index_)` -> `new_nodes(:dimension_, index_)`)",
+     [edit("triangle.f90", "jacobian_both", "new_nodes(dimension_ + 1:, index_) = nodes(:, j) - nodes(:, i)",
+           "new_nodes(:dimension_, index_) = nodes(:, j) - nodes(:, i)")]),
+    ("jac_loop_bound", "mutation", "jacobian_both: `do k = 0, num_vals - 1` -> `do k = 0, num_vals`",
+     [edit("triangle.f90", "jacobian_both", "do k = 0, num_vals - 1", "do k = 0, num_vals")]),
+    ("pipeline_renames", "harmless", "newton_simple_root: `workspace` -> `wsp`; compute_edge_nodes: `index2` -> `idx2`",
+     [edit("curve_intersection.f90", "newton_simple_root", "workspace", "wsp", 3),
+      edit("triangle.f90", "compute_edge_nodes", "index2", "idx2", 5)]),
     # ------------------------------------------------------------------ harmless only modulo algebra / garbage
     ("decl_order", "caveat", "is_separating: declaration `min_param1, max_param1` written `max_param1, min_param1` (the loop state "
      "lists the carried variables in declaration order: the tuple is permuted, the proof names the components)",
@@ -359,9 +397,13 @@ def run_case(case, base, lpath, tables_src):
         if "import BezierVerif.Generated.SrcF90\n" not in text:
             res["note"] = "Tables/%s does not import BezierVerif.Generated.SrcF90" % t
             return res
+        modname = "Tables" + t[:-5]
         with open(tab, "w") as fh:
-            fh.write(text.replace("import BezierVerif.Generated.SrcF90\n", "import SrcF90Mut\n"))
-        r2 = subprocess.run(["lean", tab], env=env2, cwd=work, stdout=subprocess.PIPE, stderr=subprocess.STDOUT, text=True)
+            fh.write(text.replace("import BezierVerif.Generated.SrcF90\n", "import SrcF90Mut\n")
+                     .replace("import BezierVerif.Tables.SrcF90Kernels\n", "import TablesSrcF90Kernels\n"))
+        # later tables import earlier ones: keep the (possibly partially failing) olean of this private copy
+        r2 = subprocess.run(["lean", "-o", os.path.join(out, modname + ".olean"), tab], env=env2, cwd=work,
+                            stdout=subprocess.PIPE, stderr=subprocess.STDOUT, text=True)
         found = False
         for m in re.finditer(r"^(\S+?):(\d+):(\d+): error", r2.stdout, re.M):
             ln = int(m.group(2))
